@@ -13,9 +13,8 @@ package rlimit
 //@ func pkg/rlimit.getRlimit
 //@   inline
 
-// The position/value clauses for DATA..NOFILE are not stated as proof obligations: through
-// seven conditional appends (each either in place or reallocating) the solvers time out.
-// They are covered by the bounded stand-in of C08 instead (labelled bounded).
+// Every entry is stated: the k-th configured resource sits at index k (= the number of configured
+// resources before it in the fixed order) with its own resource number and values.
 // PrepareRLimit: one entry per configured (non-zero) resource, in the fixed order
 // CPU, DATA, FSIZE, STACK, AS, NOFILE, CORE, with exactly the configured values
 // (CPU hard limit = max(CPUHard, CPU)); nothing else.
@@ -24,4 +23,9 @@ package rlimit
 //@   assigns nothing
 //@   ensures len(result) == b2i(old(r.CPU) > 0) + b2i(old(r.Data) > 0) + b2i(old(r.FileSize) > 0) + b2i(old(r.Stack) > 0) + b2i(old(r.AddressSpace) > 0) + b2i(old(r.OpenFile) > 0) + b2i(old(r.DisableCore))
 //@   ensures old(r.CPU) > 0 ==> result[0].Res == 0 && result[0].Rlim.Cur == old(r.CPU) && result[0].Rlim.Max == ite(old(r.CPUHard) < old(r.CPU), old(r.CPU), old(r.CPUHard))
+//@   ensures old(r.Data) > 0 ==> result[b2i(old(r.CPU) > 0)].Res == 2 && result[b2i(old(r.CPU) > 0)].Rlim.Cur == old(r.Data) && result[b2i(old(r.CPU) > 0)].Rlim.Max == old(r.Data)
+//@   ensures old(r.FileSize) > 0 ==> result[b2i(old(r.CPU) > 0) + b2i(old(r.Data) > 0)].Res == 1 && result[b2i(old(r.CPU) > 0) + b2i(old(r.Data) > 0)].Rlim.Cur == old(r.FileSize) && result[b2i(old(r.CPU) > 0) + b2i(old(r.Data) > 0)].Rlim.Max == old(r.FileSize)
+//@   ensures old(r.Stack) > 0 ==> result[b2i(old(r.CPU) > 0) + b2i(old(r.Data) > 0) + b2i(old(r.FileSize) > 0)].Res == 3 && result[b2i(old(r.CPU) > 0) + b2i(old(r.Data) > 0) + b2i(old(r.FileSize) > 0)].Rlim.Cur == old(r.Stack) && result[b2i(old(r.CPU) > 0) + b2i(old(r.Data) > 0) + b2i(old(r.FileSize) > 0)].Rlim.Max == old(r.Stack)
+//@   ensures old(r.AddressSpace) > 0 ==> result[b2i(old(r.CPU) > 0) + b2i(old(r.Data) > 0) + b2i(old(r.FileSize) > 0) + b2i(old(r.Stack) > 0)].Res == 9 && result[b2i(old(r.CPU) > 0) + b2i(old(r.Data) > 0) + b2i(old(r.FileSize) > 0) + b2i(old(r.Stack) > 0)].Rlim.Cur == old(r.AddressSpace) && result[b2i(old(r.CPU) > 0) + b2i(old(r.Data) > 0) + b2i(old(r.FileSize) > 0) + b2i(old(r.Stack) > 0)].Rlim.Max == old(r.AddressSpace)
+//@   ensures old(r.OpenFile) > 0 ==> result[b2i(old(r.CPU) > 0) + b2i(old(r.Data) > 0) + b2i(old(r.FileSize) > 0) + b2i(old(r.Stack) > 0) + b2i(old(r.AddressSpace) > 0)].Res == 7 && result[b2i(old(r.CPU) > 0) + b2i(old(r.Data) > 0) + b2i(old(r.FileSize) > 0) + b2i(old(r.Stack) > 0) + b2i(old(r.AddressSpace) > 0)].Rlim.Cur == old(r.OpenFile) && result[b2i(old(r.CPU) > 0) + b2i(old(r.Data) > 0) + b2i(old(r.FileSize) > 0) + b2i(old(r.Stack) > 0) + b2i(old(r.AddressSpace) > 0)].Rlim.Max == old(r.OpenFile)
 //@   ensures old(r.DisableCore) ==> result[len(result) - 1].Res == 4 && result[len(result) - 1].Rlim.Cur == 0 && result[len(result) - 1].Rlim.Max == 0
